@@ -33,5 +33,16 @@ cace6a2 C03
 f19f367 C07
 f95eace C12
 cb54208 C07
+93027e6 C15
+b58a47f C16
+cde81dc C06
+ca15c59 C05
+f27bc41 C05 C04 C01
+bbed24c C14 C13
+dd7eb35 C13 C03
+27f5dbd C15
+cc7d7ae C06
+989c59c C16
+7fc86f4 C06 C15
 L
 exit $bad
